@@ -68,6 +68,30 @@ CLAIMED = {
          "agreement of the RESP and JSON encodings on the conveyed result (value-level)"),
 }
 
+
+# clauses added in the fourth session (appended to the texts above): property -> (technique suffix, decided suffix, replaces the not-decided text or None)
+EXTRA = {
+ "C01": ("", "; (e) visibility is decided by the indexes alone: no handler compares the wall clock with an object's deadline, so an object past its deadline stays visible to GET as to every other access path until the sweeper's logged DEL; (f) the early exit of the sorted field scan (List.Get) compares the key that is matched", None),
+ "C02": ("; path query with the exact predicate as a scenario atom", "; conversely, after the per-item cursor step every path on which the exact predicate holds reaches the user iterator (no second condition in front of the exact test), and the index search is recognised by role", None),
+ "C03": ("", "; an error or negative reply is not reachable after an effective mutation and an empty collection is never left registered (a command that mutates and then fails skips the log)", None),
+ "C04": ("", "; the entry assumption of that proof (aofsz = file offset = 0) is discharged at every call site of the loader", None),
+ "C05": ("; decision-table evaluation (path-sensitive constant propagation over fenceMatch, 70 scenarios, about 21 000 leaves)", "; the enter/exit/inside/outside/cross classification as a table: for SET and FSET, WITHIN and INTERSECTS fences, the default detection and each of the 32 DETECT subsets, the sequence of detect values handed to the message builder equals the documented list in every leaf of the evaluation (the spatial tests of the previous and the new object, 'there was a previous object' and 'the path crosses' are atoms; WHERE/MATCH filters pass), a DEL yields one 'del' and a DROP one 'drop' message; a live connection's queue is not consumed through an aliased batch; fence evaluation never reads a stored collection pointer", "what 'inside' means for a geometry (the spatial predicates), the interplay of WHERE/MATCH with the classification, and the equality of payloads over the three transports (value-level)"),
+ "C06": ("", "; every new handle stored into Server.aof is followed on every path to a normal return by a statement that settles aofsz for that file (0 for a file created empty, the loader or Seek(0,end) otherwise), and the loader is entered with aofsz = 0", None),
+ "C07": ("", "; every write of the log file happens under the exclusive lock, also through a local that holds the handle", None),
+ "C09": ("", "; a resume cursor of the rewrite is a key, never a position kept across critical sections; a logged command that moves an existing collection to another key runs only while no rewrite is in progress (one known finding: RENAME)", None),
+ "C12": ("", "; in field.List.Get every early exit of the sorted scan that can precede a match in the same iteration compares the key that is matched", None),
+ "C13": ("", "; every object is in the spatial index the traversal walks (R19.delta: insertion independent of the previous object, removal the exact inverse)", None),
+ "C14": ("; scenario evaluation of the sweepers' stop test", "; the stop at the first future deadline ends the scan of that one expiry index only: the result of one collection's expiry scan does not decide whether the walk over the collections continues", None),
+ "C16": ("", "; the buffer handed to conn.Read is not longer than the array the pipeline reader drains its source into with one Read; Lua states are handed back to the pool (directly or through a release helper) on every path", None),
+ "C17": ("; totality analysis of json.Marshal arguments; who-may-call on strconv.ParseFloat; role-based check of the script-result converter", "; json.Marshal is used with a discarded error only where it cannot fail (static type total, or a dynamic map every stored value of which is total, finite by construction or finite-guarded); every client number parsed with strconv.ParseFloat is tested for NaN and the infinities before use (so the float formatters only see finite values); the converter of script results prints numbers only under finiteness tests and writes object keys through a string encoder; a container appended to a list in a loop is created in that iteration (the JSON branch of STATS)", None),
+ "C18": ("", "; a release helper that hands the state back resets every per-call global the call set", None),
+ "C19": ("", "; no command handler decides an object's visibility by comparing the wall clock with its deadline (GET agrees with SCAN, COUNT and STATS at every instant)", None),
+ "C20": ("; static call closure from the fence evaluation entry", "; no function reachable from the fence evaluation reads a stored *collection.Collection (the collection a fence searches is looked up in the keyspace when the fence is evaluated)", None),
+}
+for _pid, (_t, _d, _n) in EXTRA.items():
+    _tech, _dec, _not = CLAIMED[_pid]
+    CLAIMED[_pid] = (_tech + _t, _dec + _d, _n if _n else _not)
+
 NOT_APPLICABLE = {
 }
 
@@ -112,7 +136,7 @@ def main():
             "name": "t38check",
             "path": "/verif/t38check",
             "serves_properties": sorted(CLAIMED),
-            "kind_free_text": "repository-specific static checker (Go, go/packages + go/types + go/cfg from x/tools v0.29.0): command-table extraction, interprocedural lock-state dataflow, effect summaries, path rules with boolean correlation, table agreement, JSON fragment typing, zone-domain bounds prover, affine-equality (Karr) analysis, small must/count dataflows",
+            "kind_free_text": "repository-specific static checker (Go, go/packages + go/types + go/cfg from x/tools v0.29.0): command-table extraction, interprocedural lock-state dataflow, effect summaries, path rules with boolean correlation, table agreement, JSON fragment typing, zone-domain bounds prover, affine-equality (Karr) analysis, scenario evaluation, effect tables, decision-table evaluation by path-sensitive constant propagation, small must/count dataflows",
         }],
         "checks": checks,
         "not_applicable": na,
